@@ -58,10 +58,11 @@ def discharge(ob, timeout_ms=10000, use_cvc5=True):
     t_all = time.time()
     # portfolio: z3's quantifier instantiation is unstable (the same query may take 0.05 s or > 30 s depending on the seed and
     # on address-space layout), so several short attempts with different seeds come before the long ones
-    schedule = ((0, 0.25), (7, 0.25), (23, 0.25), (101, 0.5), (0, 1.0), (7, 2.0))
-    for attempt, (seed, factor) in enumerate(schedule):
+    # (seed, budget factor, relevance-filter rounds or None for all hypotheses)
+    schedule = ((0, 0.25, None), (0, 0.25, 0), (0, 0.25, 2), (7, 0.25, None), (7, 0.25, 3), (23, 0.25, 0), (101, 0.5, 4), (0, 1.0, None), (7, 2.0, None))
+    for attempt, (seed, factor, rounds) in enumerate(schedule):
         last = attempt == len(schedule) - 1
-        _discharge_once(ob, max(1000, int(timeout_ms * factor)), use_cvc5 and last, seed)
+        _discharge_once(ob, max(1000, int(timeout_ms * factor)), use_cvc5 and last, seed, rounds)
         if ob.result != "open" or ob.kind in ("vacuity", "vacuity-exit"):
             break
         ob.result_prev = ob.detail
@@ -71,12 +72,90 @@ def discharge(ob, timeout_ms=10000, use_cvc5=True):
     return ob
 
 
-def _discharge_once(ob, timeout_ms, use_cvc5, seed):
+_sym_cache = {}
+
+
+def symbols(e):
+    """names of the uninterpreted constants / functions occurring in a term"""
+    k = e.get_id()
+    if k in _sym_cache:
+        return _sym_cache[k]
+    out, todo, seen = set(), [e], set()
+    while todo:
+        x = todo.pop()
+        i = x.get_id()
+        if i in seen:
+            continue
+        seen.add(i)
+        if z3.is_quantifier(x):
+            todo.append(x.body())
+            for pi in range(x.num_patterns()):
+                pass
+        elif z3.is_app(x):
+            d = x.decl()
+            if d.kind() == z3.Z3_OP_UNINTERPRETED:
+                out.add(d.name())
+            todo.extend(x.children())
+    _sym_cache[k] = out
+    return out
+
+
+def cone(hyps, goal, rounds):
+    """relevance filter: hypotheses connected to the goal through shared uninterpreted symbols within `rounds` steps.
+    Proving from FEWER hypotheses is sound; it only removes noise for the quantifier instantiation."""
+    syms = set(symbols(goal))
+    keep = [False] * len(hyps)
+    hs = [symbols(h) for h in hyps]
+    # symbols that occur almost everywhere (self, the heap arrays, ...) connect everything with everything: not used as links
+    freq = {}
+    for hsym in hs:
+        for x in hsym:
+            freq[x] = freq.get(x, 0) + 1
+    common = {x for x, c in freq.items() if c > max(6, 0.25 * len(hyps))}
+    hs = [h - common if (h - common) else h for h in hs]
+    syms = (syms - common) or syms
+    for _ in range(rounds):
+        grew = False
+        for i, hsym in enumerate(hs):
+            if not keep[i] and (not hsym or hsym & syms):
+                keep[i] = True
+                if not hsym <= syms:
+                    syms |= hsym
+                    grew = True
+        if not grew:
+            break
+    return [h for h, k in zip(hyps, keep) if k]
+
+
+def _discharge_once(ob, timeout_ms, use_cvc5, seed, rounds=None):
     t0 = time.time()
     s = z3.Solver()
     s.set("timeout", timeout_ms)
     if seed:
         s.set("random_seed", seed)
+    if rounds is not None and ob.kind not in ("vacuity", "vacuity-exit"):
+        if rounds == 0:
+            # all hypotheses, each guarded by an assumption literal (changes z3's instantiation strategy; often much faster)
+            ps = [z3.Bool("hyp!%d" % i) for i in range(len(ob.hyps))]
+            for p_, h_ in zip(ps, ob.hyps):
+                s.add(z3.Implies(p_, h_))
+            s.add(*E.strlit_axioms())
+            s.add(z3.Not(ob.goal))
+            r = s.check(*ps)
+            ob.backend = "z3-" + Z3_VERSION + "(tracked hyps)"
+            hyps = ob.hyps
+        else:
+            hyps = cone(ob.hyps, ob.goal, rounds)
+            s.add(*hyps)
+            s.add(*E.strlit_axioms())
+            s.add(z3.Not(ob.goal))
+            r = s.check()
+            ob.backend = "z3-" + Z3_VERSION + "(cone%d:%d/%d hyps)" % (rounds, len(hyps), len(ob.hyps))
+        ob.result = "discharged" if r == z3.unsat else "open"      # sat / unknown from fewer hypotheses mean nothing
+        if r != z3.unsat:
+            ob.detail = "z3(cone): " + (s.reason_unknown() if r == z3.unknown else "sat with filtered hypotheses")
+        ob.ms = int(1000 * (time.time() - t0))
+        return ob
     s.add(*ob.hyps)
     s.add(*E.strlit_axioms())
     if ob.kind in ("vacuity", "vacuity-exit"):
@@ -201,6 +280,13 @@ def verify_unit(unit_loader, timeout_ms=10000, jobs=8, use_cvc5=False):
         # reachability guard: at least one normal exit must be reachable under the assumptions
         exits = [ob for ob in obs if ob.kind == "vacuity-exit"]
         keep = [ob for ob in obs if ob.kind != "vacuity-exit"]
+        if not exits and res["status"] == "ok" and keep:
+            fcq = res["target"]
+            dead = E.Obligation("%s/vacuity:normal-exit-reachable" % fcq, [], None, "vacuity", 0, 0)
+            always_raises = any(ob.kind == "raises" for ob in keep) and not any(ob.kind == "post" for ob in keep)
+            if not always_raises:
+                dead.result, dead.backend, dead.detail = "vacuous", "path-exploration", "no explored path reaches a normal exit"
+                keep.append(dead)
         if exits:
             reach = next((ob for ob in exits if ob.result == "discharged"), None)
             rep = reach or exits[0]
